@@ -15,12 +15,14 @@ import (
 var dEndpoints = []string{"etcd-1:2379"}
 
 const dKey = "svc"
+const dKey2 = "other"
 
 // each key carries one value during its life (as publishers produce)
-var dValueOf = map[string]string{"k1": "vA", "k2": "vA", "k3": "vB"}
+var dValueOf = map[string]string{"k1": "vA", "k2": "vA", "k3": "vB", "o1": "vC"}
 
 type dSub struct {
 	s         *discov.Subscriber
+	key       string // watched prefix
 	exclusive bool
 	notified  int
 	// exclusive reference: value -> the most recent key that published it, as seen by
@@ -28,6 +30,8 @@ type dSub struct {
 	owner     map[string]string
 	ambiguous map[string]bool
 	staleJoin bool // joined while the registry's cached view differed from the keyspace
+	lastWant  string
+	hasLast   bool
 }
 
 func (d *dSub) add(key, val string) { d.owner[val] = key }
@@ -66,8 +70,8 @@ type dSys struct {
 	f    *internal.VerifEtcd
 	subs []*dSub
 	// reference
-	visible map[string]string // keyspace as known through delivered events / snapshots
-	pending []string          // undelivered ops: "put:k" / "del:k"
+	visible map[string]string   // keyspace as known through delivered events / snapshots
+	pending []string            // undelivered ops: "put:k" / "del:k"
 	order   map[string][]string // exclusive reference: value -> publishing keys in arrival order, per subscriber index
 }
 
@@ -78,42 +82,74 @@ func newDSys(r *vrt.Run) *dSys {
 	return s
 }
 
-func full(k string) string { return dKey + "/" + k }
+func full(k string) string {
+	if strings.HasPrefix(k, "o") {
+		return dKey2 + "/" + k
+	}
+	return dKey + "/" + k
+}
 
-func (s *dSys) subscribe(exclusive bool) {
+func under(prefix string, m map[string]string) map[string]string {
+	out := map[string]string{}
+	for k, v := range m {
+		if strings.HasPrefix(k, prefix+"/") {
+			out[k] = v
+		}
+	}
+	return out
+}
+
+func (s *dSys) subscribe(exclusive bool) { s.subscribeKey(exclusive, dKey) }
+
+func (s *dSys) subscribeKey(exclusive bool, key string) {
 	staleJoin := false
 	if len(s.subs) > 0 {
-		cached := internal.VerifCached(dEndpoints, dKey)
-		staleJoin = fmt.Sprint(sortedKV(cached)) != fmt.Sprint(sortedKV(s.f.KV))
+		if cached := internal.VerifCached(dEndpoints, key); cached != nil {
+			staleJoin = fmt.Sprint(sortedKV(cached)) != fmt.Sprint(sortedKV(under(key, s.f.KV)))
+		}
 	}
 	var opts []discov.SubOption
 	if exclusive {
 		opts = append(opts, discov.Exclusive())
 	}
-	sub, err := discov.NewSubscriber(append([]string{}, dEndpoints...), dKey, opts...)
+	sub, err := discov.NewSubscriber(append([]string{}, dEndpoints...), key, opts...)
 	if err != nil {
 		s.r.Failf("NewSubscriber: %v", err)
 		return
 	}
-	d := &dSub{s: sub, exclusive: exclusive, owner: map[string]string{}, ambiguous: map[string]bool{}, staleJoin: staleJoin}
+	d := &dSub{s: sub, key: key, exclusive: exclusive, owner: map[string]string{}, ambiguous: map[string]bool{}, staleJoin: staleJoin}
 	sub.AddListener(func() { d.notified++ })
 	// a (re)load happened inside Monitor: the snapshot is visible now
 	cur := map[string]string{}
-	for k, v := range s.f.KV {
+	for k, v := range s.visible {
+		if !strings.HasPrefix(k, key+"/") {
+			cur[k] = v // other prefixes are not reloaded by this join
+		}
+	}
+	for k, v := range under(key, s.f.KV) {
 		cur[k] = v
 	}
 	for _, o := range s.subs {
-		o.snapshot(s.visible, cur)
+		if o.key == key {
+			o.snapshot(under(key, s.visible), under(key, cur))
+		}
 	}
-	d.snapshot(map[string]string{}, cur)
+	d.snapshot(map[string]string{}, under(key, cur))
 	// joining while events are still undelivered: the registry hands over its own
 	// (not yet updated) view first; arrival order of the affected values is unspecified
+	var keep []string
 	for _, p := range s.pending {
-		d.ambiguous[dValueOf[strings.Split(p, ":")[1]]] = true
+		k := strings.Split(p, ":")[1]
+		if strings.HasPrefix(full(k), key+"/") {
+			d.ambiguous[dValueOf[k]] = true
+			// the join's snapshot already contains this change; the queued event is still
+			// delivered later and must be harmless
+		}
+		keep = append(keep, p)
 	}
 	s.subs = append(s.subs, d)
 	s.visible = cur
-	s.pending = nil
+	s.pending = keep
 }
 
 func (s *dSys) applyPending() {
@@ -122,12 +158,16 @@ func (s *dSys) applyPending() {
 		if f[0] == "put" {
 			s.visible[full(f[1])] = dValueOf[f[1]]
 			for _, d := range s.subs {
-				d.add(full(f[1]), dValueOf[f[1]])
+				if strings.HasPrefix(full(f[1]), d.key+"/") {
+					d.add(full(f[1]), dValueOf[f[1]])
+				}
 			}
 		} else {
 			delete(s.visible, full(f[1]))
 			for _, d := range s.subs {
-				d.del(full(f[1]), dValueOf[f[1]])
+				if strings.HasPrefix(full(f[1]), d.key+"/") {
+					d.del(full(f[1]), dValueOf[f[1]])
+				}
 			}
 		}
 	}
@@ -146,13 +186,22 @@ func (s *dSys) apply(op string) bool {
 		if len(s.subs) >= 2 {
 			return false
 		}
-		s.subscribe(f[1] == "x")
+		if f[1] == "o" {
+			for _, d := range s.subs {
+				if d.key == dKey2 {
+					return false
+				}
+			}
+			s.subscribeKey(false, dKey2)
+		} else {
+			s.subscribe(f[1] == "x")
+		}
 	case "put":
 		if _, ok := s.f.KV[full(f[1])]; ok {
 			return false
 		}
 		s.f.PutKV(full(f[1]), dValueOf[f[1]])
-		if s.f.Connected && len(s.subs) > 0 {
+		if s.f.Connected && s.watched(f[1]) {
 			s.pending = append(s.pending, op)
 		}
 	case "del":
@@ -160,7 +209,7 @@ func (s *dSys) apply(op string) bool {
 			return false
 		}
 		s.f.DelKV(full(f[1]))
-		if s.f.Connected && len(s.subs) > 0 {
+		if s.f.Connected && s.watched(f[1]) {
 			s.pending = append(s.pending, op)
 		}
 	case "deliver":
@@ -187,7 +236,7 @@ func (s *dSys) apply(op string) bool {
 			cur[k] = v
 		}
 		for _, d := range s.subs {
-			d.snapshot(s.visible, cur)
+			d.snapshot(under(d.key, s.visible), under(d.key, cur))
 		}
 		s.visible = cur
 		changed = old != fmt.Sprint(sortedKV(s.visible))
@@ -195,6 +244,16 @@ func (s *dSys) apply(op string) bool {
 	vrt.Settle()
 	s.check(op, before, changed)
 	return true
+}
+
+// watched: is the key's prefix monitored by some subscriber (so that etcd queues events)?
+func (s *dSys) watched(k string) bool {
+	for _, d := range s.subs {
+		if strings.HasPrefix(full(k), d.key+"/") {
+			return true
+		}
+	}
+	return false
 }
 
 func sortedKV(m map[string]string) []string {
@@ -207,16 +266,16 @@ func sortedKV(m map[string]string) []string {
 }
 
 func (s *dSys) check(op string, before []int, changed bool) {
-	want := map[string]bool{}
-	for _, v := range s.visible {
-		want[v] = true
-	}
-	var wl []string
-	for v := range want {
-		wl = append(wl, v)
-	}
-	sort.Strings(wl)
 	for i, d := range s.subs {
+		want := map[string]bool{}
+		for _, v := range under(d.key, s.visible) {
+			want[v] = true
+		}
+		var wl []string
+		for v := range want {
+			wl = append(wl, v)
+		}
+		sort.Strings(wl)
 		got := append([]string{}, d.s.Values()...)
 		sort.Strings(got)
 		for j := 1; j < len(got); j++ {
@@ -233,7 +292,7 @@ func (s *dSys) check(op string, before []int, changed bool) {
 					s.r.Failf("after %s: exclusive subscriber %d lists %s, live values are %v (keys %v)", op, i, g, wl, sortedKV(s.visible))
 				}
 			}
-			for _, v := range []string{"vA", "vB"} {
+			for _, v := range []string{"vA", "vB", "vC"} {
 				if d.ambiguous[v] {
 					continue
 				}
@@ -247,11 +306,13 @@ func (s *dSys) check(op string, before []int, changed bool) {
 				}
 			}
 		} else if fmt.Sprint(got) != fmt.Sprint(wl) {
-			s.r.Failf("after %s: subscriber %d lists %v, the keys present are %v", op, i, got, sortedKV(s.visible))
+			s.r.Failf("after %s: subscriber %d (prefix %s) lists %v, the keys present are %v", op, i, d.key, got, sortedKV(under(d.key, s.visible)))
 		}
-		if changed && i < len(before) && d.notified == before[i] {
-			s.r.Failf("after %s: the view changed but subscriber %d's change listener did not run", op, i)
+		_ = changed
+		if d.hasLast && fmt.Sprint(wl) != d.lastWant && i < len(before) && d.notified == before[i] {
+			s.r.Failf("after %s: the view of subscriber %d changed (%s -> %v) but its change listener did not run", op, i, d.lastWant, wl)
 		}
+		d.lastWant, d.hasLast = fmt.Sprint(wl), true
 	}
 }
 
@@ -279,12 +340,12 @@ func (s *dSys) canon() string {
 func TestVerifDiscovHistories(t *testing.T) {
 	defer vrt.WriteReport()
 	logx.Disable()
-	ops := []string{"sub:n", "sub:x", "put:k1", "put:k2", "put:k3", "del:k1", "del:k2", "del:k3", "deliver", "disconnect", "reconnect"}
+	ops := []string{"sub:n", "sub:x", "sub:o", "put:o1", "del:o1", "put:k1", "put:k2", "put:k3", "del:k1", "del:k2", "del:k3", "deliver", "disconnect", "reconnect"}
 	depth := 7
 	if vrt.Thorough() {
 		depth = 9
 	}
-	for i, first := range []string{"sub:n", "sub:x", "put:k1", "put:k2", "put:k3"} {
+	for i, first := range []string{"sub:n", "sub:x", "put:k1", "put:k2", "put:k3", "sub:o", "put:o1"} {
 		if !vrt.Shard(i) {
 			continue
 		}
@@ -312,7 +373,7 @@ func TestVerifDiscovHistories(t *testing.T) {
 func TestVerifDiscovReloadRace(t *testing.T) {
 	defer vrt.WriteReport()
 	logx.Disable()
-	if !vrt.Shard(5) {
+	if !vrt.Shard(7) {
 		return
 	}
 	bound := 2
